@@ -620,7 +620,10 @@ void tickit_window_set_geometry(TickitWindow *win, TickitRect geom)
 
     win->rect = geom;
 
+    /* A handler may drop the last reference to this window */
+    tickit_window_ref(win);
     run_events(win, TICKIT_WINDOW_ON_GEOMCHANGE, &info);
+    tickit_window_unref(win);
   }
 }
 
@@ -708,6 +711,10 @@ static void _do_expose(TickitWindow *win, const TickitRect *rect, TickitRenderBu
   DEBUG_LOGF("Wx", "%sExpose " WINDOW_PRINTF_FMT " " RECT_PRINTF_FMT,
       _gen_indent(win), WINDOW_PRINTF_ARGS(win), RECT_PRINTF_ARGS(*rect));
 
+  /* An expose handler, of this window or of one below it, may drop the last
+   * reference to this window */
+  tickit_window_ref(win);
+
   if(win->pen)
     tickit_renderbuffer_setpen(rb, win->pen);
 
@@ -735,6 +742,8 @@ static void _do_expose(TickitWindow *win, const TickitRect *rect, TickitRenderBu
     .rb = rb,
   };
   run_events(win, TICKIT_WINDOW_ON_EXPOSE, &info);
+
+  tickit_window_unref(win);
 }
 
 static void _request_restore(TickitRootWindow *root)
@@ -1325,6 +1334,9 @@ void tickit_window_take_focus(TickitWindow *win)
 
 static void _focus_gained(TickitWindow *win, TickitWindow *child)
 {
+  /* A focus handler may drop the last reference to this window */
+  tickit_window_ref(win);
+
   /* Whoever held the focus below this window loses it now, whether the new
    * holder is another child or this window itself */
   if(win->focused_child && win->focused_child != child) {
@@ -1362,10 +1374,14 @@ static void _focus_gained(TickitWindow *win, TickitWindow *child)
   }
 
   win->focused_child = child;
+
+  tickit_window_unref(win);
 }
 
 static void _focus_lost(TickitWindow *win)
 {
+  tickit_window_ref(win);
+
   if(win->focused_child) {
     _focus_lost(win->focused_child);
 
@@ -1380,6 +1396,8 @@ static void _focus_lost(TickitWindow *win)
     TickitFocusEventInfo info = { .type = TICKIT_FOCUSEV_OUT, .win = win };
     run_events(win, TICKIT_WINDOW_ON_FOCUS, &info);
   }
+
+  tickit_window_unref(win);
 }
 
 bool tickit_window_is_focused(const TickitWindow *win)
